@@ -53,6 +53,9 @@ type Replica struct {
 	App     *app.AkashApp
 	DB      dbm.DB
 	InBlock bool
+	// Inv: the node-local --inv-check-period this node was started with (0 = never).  An operator's
+	// option: nothing the state machine computes may depend on it, so replicas run with different values.
+	Inv uint
 }
 
 type Knobs struct {
@@ -93,8 +96,10 @@ type BlockRec struct {
 
 var encCfg = app.MakeEncodingConfig()
 
-func newApp(db dbm.DB) *app.AkashApp {
-	return app.NewApp(log.NewNopLogger(), db, nil, true, 0, map[int64]bool{}, app.DefaultHome, simapp.EmptyAppOptions{})
+func newApp(db dbm.DB) *app.AkashApp { return newAppInv(db, 0) }
+
+func newAppInv(db dbm.DB, inv uint) *app.AkashApp {
+	return app.NewApp(log.NewNopLogger(), db, nil, true, inv, map[int64]bool{}, app.DefaultHome, simapp.EmptyAppOptions{})
 }
 
 func actorKey(i int) cryptotypes.PrivKey {
@@ -159,7 +164,7 @@ func NewWorldPreset(r *core.Run, nrep int, pre *Preset) *World {
 	w.Genesis = w.buildGenesis()
 	w.genesisTime = w.Time
 	for i := 0; i < nrep; i++ {
-		w.Reps = append(w.Reps, w.bootReplica(w.Genesis))
+		w.Reps = append(w.Reps, w.bootReplicaInv(w.Genesis, uint(len(w.Reps)))) // replica i checks invariants every i blocks (0: never)
 	}
 	// account numbers are assigned by genesis order
 	ctx := w.Reps[0].App.NewContext(true, tmproto.Header{Height: 1})
@@ -199,7 +204,7 @@ func (w *World) finishWorld(r *core.Run, nrep int, pre *Preset) *World {
 	w.Genesis = w.buildGenesis()
 	w.genesisTime = w.Time
 	for i := 0; i < nrep; i++ {
-		w.Reps = append(w.Reps, w.bootReplica(w.Genesis))
+		w.Reps = append(w.Reps, w.bootReplicaInv(w.Genesis, uint(len(w.Reps)))) // replica i checks invariants every i blocks (0: never)
 	}
 	ctx := w.Reps[0].App.NewContext(true, tmproto.Header{Height: 1})
 	ak := w.accountKeeper(w.Reps[0])
@@ -264,9 +269,11 @@ func (w *World) buildGenesis() []byte {
 	return b
 }
 
-func (w *World) bootReplica(genesis []byte) *Replica {
+func (w *World) bootReplica(genesis []byte) *Replica { return w.bootReplicaInv(genesis, 0) }
+
+func (w *World) bootReplicaInv(genesis []byte, inv uint) *Replica {
 	db := dbm.NewMemDB()
-	a := newApp(db)
+	a := newAppInv(db, inv)
 	a.InitChain(abci.RequestInitChain{
 		ChainId:         ChainID,
 		Time:            w.Time,
@@ -275,7 +282,7 @@ func (w *World) bootReplica(genesis []byte) *Replica {
 		AppStateBytes:   genesis,
 	})
 	a.Commit()
-	return &Replica{App: a, DB: db}
+	return &Replica{App: a, DB: db, Inv: inv}
 }
 
 // consensusParams: simapp's defaults with an unlimited block gas limit (the 2,000,000 default of the
